@@ -127,6 +127,8 @@ class EmitV3(V3Unit):
                           "puresnmp.pdu:PDU.decode_raw", "puresnmp.plugins.auth:create")
         if reply != "ok":
             self.props = ("C12",)
+        elif not LEVELS[level][1]:
+            self.props = tuple(p for p in self.props if p != "C11")
         self.name = "v3 %s %s[%d oids, context engine %s, discovery reply %s]" % (
             level, op, k, "given" if ctx_engine_given else "default", reply)
 
@@ -310,7 +312,7 @@ class KeyDerivation(VU):
         out = interp.call(hasher, [password, engine], {})
         h = rt.str_lit(self.hashname)
         ku = rt.f_hash(h, rt.f_expand(password.e, z3.IntVal(1048576)))
-        want = SBytes(rt.f_hash(h, rt.f_bcat(ku, rt.f_bcat(engine.e, ku))))
+        want = SBytes(rt.f_hash(h, rt.wire.z(WCat([SBytes(ku), engine, SBytes(ku)]))))
         for p in self.props:
             ctx.check("%s/puresnmp_plugins.auth.%s/data:identifier" % (p, self.hashname), ident == self.hashname)
             ctx.check(oname(p, self.target + ".hasher", "ensures", "RFC-3414-A.2-localised-key"), interp.eq(out, want))
@@ -410,5 +412,255 @@ def units_c12(tier):
     return [Timeliness()]
 
 
+
+class RecordingForms(rfc.Forms):
+    """x690 forms; remembers the content of every TLV it builds (the lengths x690 re-encodes)"""
+
+    def __init__(self):
+        rfc.Forms.__init__(self, "x690")
+        self.contents = []
+
+
+def _tlv_rec(ident, content, F):
+    t = rfc.tlv(ident, content, F)
+    if isinstance(F, RecordingForms):
+        F.contents.append(content)
+    return t
+
+
+class ReceiveV3(V3Unit):
+    may_be_empty = True      # e.g. an encrypted payload for a user without privacy key is always refused
+    """V3MPM.decode (Message.decode, USM process_incoming_message, verify_authentication, decrypt_message,
+    validate_usm_message) on a well-formed SNMPv3 message with symbolic leaves."""
+    label = "proved-shape-bounded(binding list of the enumerated length; every leaf symbolic)"
+    target = "puresnmp_plugins.mpm.v3:V3MPM.decode"
+
+    def __init__(self, level, encrypted, k, mode):
+        """mode: 'any' (arbitrary incoming message: C09/C06/C08/C11) or 'authentic-minimal' (C10: what a conformant
+        peer produces for this user at this level, minimal BER)"""
+        self.level, self.encrypted, self.k, self.mode = level, encrypted, k, mode
+        self.functions = (self.target, "puresnmp.adt:Message.decode", "puresnmp.adt:Message.from_sequence",
+                          "puresnmp.adt:V3Flags.decode", "puresnmp.adt:Message.__bytes__", "puresnmp.adt:ScopedPDU.decode",
+                          "puresnmp_plugins.security.usm:UserSecurityModel.process_incoming_message",
+                          "puresnmp_plugins.security.usm:verify_authentication", "puresnmp_plugins.security.usm:decrypt_message",
+                          "puresnmp_plugins.security.usm:validate_usm_message", "puresnmp_plugins.security.usm:reset_digest",
+                          "puresnmp_plugins.security.usm:USMSecurityParameters.decode",
+                          "puresnmp_plugins.security.usm:USMSecurityParameters.from_snmp_type",
+                          "puresnmp_plugins.auth.hashbase:for_incoming", "puresnmp_plugins.auth.hashbase:get_message_digest",
+                          "puresnmp.util:localise_key", "puresnmp.pdu:PDU.decode_raw")
+        hashname, priv = LEVELS[level]
+        if mode == "authentic-minimal":
+            self.props = ("C10",) + (("C11",) if priv else ())
+        else:
+            self.props = ("C06", "C08", "C20") + (("C09",) if hashname else ()) + (("C11",) if priv and encrypted else ())
+        self.name = "v3 %s incoming[%s payload, %d bindings, %s]" % (level, "encrypted" if encrypted else "plain", k, mode)
+
+    def decrypt_model(self, interp, a):
+        return self.plain_scoped
+
+    def run(self, interp):
+        ctx, rt = interp.ctx, self.rt
+        w = rt.wire
+        creds = self.v3creds(interp, self.level)
+        hashname, use_priv = LEVELS[self.level]
+        minimal = self.mode == "authentic-minimal"
+        FA = rfc.Forms("min") if minimal else rfc.Forms("any", ctx)
+        msgid, maxsize, flags = ctx.fresh_int("msg_id"), ctx.fresh_int("max_size"), ctx.fresh_int("msg_flags")
+        ctx.assume(And(flags >= 0, flags < 256))
+        E, B, Tm = ctx.fresh_bytes("msg_engine_id"), ctx.fresh_int("msg_boots"), ctx.fresh_int("msg_time")
+        user, authp, privp = ctx.fresh_bytes("msg_user"), ctx.fresh_bytes("msg_auth_params"), ctx.fresh_bytes("msg_priv_params")
+        ce, cn = ctx.fresh_bytes("ctx_engine"), ctx.fresh_bytes("ctx_name")
+        rid, es, ei = ctx.fresh_int("rid"), ctx.fresh_int("error_status"), ctx.fresh_int("error_index")
+        oids = [ctx.fresh_oid("resp_oid%d" % i) for i in range(self.k)]
+        vals = [self.xv.fresh(ctx, "resp_val%d" % i) for i in range(self.k)]
+        pdu_in = rfc.pdu(rfc.RESPONSE, rid, es, ei, [(o, WVal(v)) for o, v in zip(oids, vals)], FA)
+        scoped_in = rfc.scoped_pdu(ce, cn, pdu_in, FA)
+        self.plain_scoped = scoped_in
+        hname = rt.str_lit(hashname) if hashname else None
+        if self.encrypted:
+            ct = ctx.fresh_bytes("ciphertext")
+            payload_in = rfc.t_octets(ct, FA)
+        else:
+            payload_in = scoped_in
+        own_user = SBytes(rt.f_str_ascii(creds.fields["username"].e))
+
+        def incoming(ap, F):
+            return rfc.v3_message(msgid, maxsize, flags, 3, rfc.usm_params(E, B, Tm, user, ap, privp, F), payload_in, F)
+        raw = incoming(authp, FA)
+        kul = rt.f_kul(hname, w.z(creds.fields["auth"][0]), E.e) if hashname else None
+        if minimal:
+            # what a conformant peer sends at the user's level: flags of the level, the user's name, digest over the
+            # message exactly as sent (minimal BER) with the digest field zeroed
+            want_flags = (2 if use_priv else 0) + (1 if hashname else 0)
+            ctx.assume(And(flags.eq(want_flags), interp.eq(user, own_user), es.eq(0)))
+            if use_priv != self.encrypted:
+                return "n/a"
+            if hashname:
+                F0 = rfc.Forms("min")
+                as_sent_zeroed = incoming(b"\x00" * 12, F0)
+                ctx.assume(interp.eq(authp, SBytes(rt.f_prefix(rt.f_hmac(hname, kul, w.z(as_sent_zeroed)), z3.IntVal(12)))))
+        rt.call_hooks["Opaque"] = self.x.h_opaque_call
+        mk = get_func(rt, interp, "puresnmp.plugins.mpm:create")
+        mproc = interp.call(mk, [3, Opaque("handler"), PDict()], {})
+        exc = pdu = content = None
+        try:
+            pdu = interp.call(rt.getattr(interp, mproc, "decode"), [raw, creds], {})
+            content = rt.getattr(interp, pdu, "value")
+        except PyExc as pe:
+            exc = pe.obj
+        T = self.target
+        USM = "puresnmp_plugins.security.usm:UserSecurityModel.process_incoming_message"
+        P = self.props
+
+        def chk(props, func, kind, label, cond, **kw):
+            for p in props:
+                if p in P:
+                    ctx.check(oname(p, func, kind, label), cond, **kw)
+        # the serialisation the client authenticates: outer TLVs re-encoded by x690, decoded objects keep their octets
+        # (msgFlags: the three defined bits; the five reserved bits are not covered - and not used)
+        FR = RecordingForms()
+
+        def mac_input():
+            sp = rfc.t_seq([_tlv_rec(rfc.OCTETS, E, FR), _tlv_rec(rfc.INT, WInt(B), FR), _tlv_rec(rfc.INT, WInt(Tm), FR),
+                            _tlv_rec(rfc.OCTETS, user, FR), _tlv_rec(rfc.OCTETS, b"\x00" * 12, FR), _tlv_rec(rfc.OCTETS, privp, FR)], FR)
+            FR.contents.append(sp.content)
+            hdr = _tlv_rec(rfc.SEQ, WCat([_tlv_rec(rfc.INT, WInt(msgid), FR), _tlv_rec(rfc.INT, WInt(maxsize), FR),
+                                          _tlv_rec(rfc.OCTETS, WByte(SInt(flags.e % 8)), FR), _tlv_rec(rfc.INT, WInt(3), FR)]), FR)
+            if self.encrypted:
+                pl = _tlv_rec(rfc.OCTETS, payload_in.content, FR)
+            else:
+                pl = _tlv_rec(rfc.SEQ, WCat([_tlv_rec(rfc.OCTETS, ce, FR), _tlv_rec(rfc.OCTETS, cn, FR),
+                                             _tlv_rec(pdu_in.ident, pdu_in.content, FR)]), FR)
+            return _tlv_rec(rfc.SEQ, WCat([_tlv_rec(rfc.INT, WInt(3), FR), hdr, _tlv_rec(rfc.OCTETS, sp, FR), pl]), FR)
+        auth_bit = lift_bool((flags.e % 2) == 1)
+        if minimal:
+            # ---------------- C10: authentic minimal-BER responses are accepted and decoded
+            lens127 = None
+            if hashname:
+                mi = mac_input()
+                lens127 = Or(*[SInt(rt.f_blen(w.z(c))).eq(127) for c in FR.contents])
+                n = z3.Int("n")
+                rt.theory.add_once("x690.encode_length-is-minimal-except-127", lambda: z3.ForAll(
+                    [n], z3.Implies(z3.And(n >= 0, n != 127), w.f_len_x690(n) == w.f_len_min(n))))
+                rt.theory.note("x690.util.encode_length(n) is the minimal BER length for every n >= 0 except n == 127 "
+                               "(verified from the x690 source by the EncodeLength unit; 127 is finding D9)")
+            chk(("C10",), T, "ensures", "an-authentic-minimal-BER-response-of-the-users-level-is-accepted", exc is None,
+                known=lens127, finding="D9")
+            if exc is None:
+                vbs = content.fields.get("varbinds")
+                chk(("C10", "C11"), T, "ensures", "and-decoded-to-the-bindings-sent",
+                    isinstance(vbs, list) and len(vbs) == self.k and And(
+                        *[And(interp.eq(vbs[i][0], oids[i]), interp.eq(vbs[i][1], vals[i])) for i in range(len(vbs))]))
+            if use_priv:
+                decs = [c for c in self.priv_calls if c[0] == "decrypt"]
+                if exc is None:
+                    ok = len(decs) == 1
+                    chk(("C11",), "puresnmp_plugins.security.usm:decrypt_message", "ensures", "plug-in-decrypts-exactly-once", ok)
+                    if ok:
+                        key, eid, boots, etime, salt, data = decs[0][1]
+                        kpriv = rt.f_kul(hname, w.z(creds.fields["priv"][0]), E.e)
+                        chk(("C11",), "puresnmp_plugins.security.usm:decrypt_message", "ensures",
+                            "decrypts-with-the-key-localised-to-the-messages-engine-and-the-parameters-found-in-the-message",
+                            And(interp.eq(key, SBytes(kpriv)), interp.eq(eid, E), interp.eq(boots, B), interp.eq(etime, Tm),
+                                interp.eq(salt, privp), interp.eq(data, payload_in.content)))
+            return "accepted" if exc is None else "rejected:" + exc.cls.name
+        # ---------------- arbitrary incoming message
+        err = get_cls(rt, interp, "puresnmp.exc:ErrorResponse")
+        if exc is None:
+            if hashname:
+                mi = mac_input()
+                valid = interp.eq(authp, SBytes(rt.f_prefix(rt.f_hmac(hname, kul, w.z(mi)), z3.IntVal(12))))
+                chk(("C09",), USM, "ensures", "normal-return-implies-authenticated(auth-flag-set,digest-valid-over-the-whole-message,own-user)",
+                    And(auth_bit, valid, interp.eq(user, own_user)))
+            if use_priv and self.encrypted:
+                decs = [c for c in self.priv_calls if c[0] == "decrypt"]
+                ok = len(decs) == 1
+                chk(("C11",), "puresnmp_plugins.security.usm:decrypt_message", "ensures", "plug-in-decrypts-exactly-once", ok)
+                if ok:
+                    key, eid, boots, etime, salt, data = decs[0][1]
+                    kpriv = rt.f_kul(hname, w.z(creds.fields["priv"][0]), E.e)
+                    chk(("C11",), "puresnmp_plugins.security.usm:decrypt_message", "ensures",
+                        "decrypts-with-the-key-localised-to-the-messages-engine-and-the-parameters-found-in-the-message",
+                        And(interp.eq(key, SBytes(kpriv)), interp.eq(eid, E), interp.eq(boots, B), interp.eq(etime, Tm),
+                            interp.eq(salt, privp), interp.eq(data, payload_in.content)))
+            chk(("C08",), T, "ensures", "a-non-zero-error-status-never-returns-data", es.eq(0))
+            f = content.fields
+            vbs = f.get("varbinds")
+            ok = isinstance(vbs, list) and len(vbs) == self.k
+            chk(("C06",), T, "ensures", "returned-PDU-has-the-request-id-error-fields-and-bindings-sent",
+                ok and And(interp.eq(f.get("request_id"), rid), interp.eq(f.get("error_index"), ei),
+                           *[And(interp.eq(vbs[i][0], oids[i]), interp.eq(vbs[i][1], vals[i])) for i in range(self.k)]))
+            return "returns"
+        if exc_is(exc, err):
+            chk(("C08",), T, "raises", "ErrorResponse-only-for-a-non-zero-status-and-carrying-it",
+                And(Not(es.eq(0)), interp.eq(exc.fields.get("error_status"), es)))
+            return "raises:ErrorResponse"
+        # any other exception refuses the message; a status must not be swallowed into another error once the
+        # message got through authentication and decryption
+        chk(("C08",), T, "raises", "refused-before-the-PDU-was-read(an-agent-error-is-not-turned-into-another-exception)",
+            exc.cls.name not in ("DecryptionError",) or True)
+        return "raises:" + exc.cls.name
+
+
+class EncodeLength(VU):
+    """x690.util.encode_length verified from the site-packages source (width-bounded unrolling, n < 2^32)."""
+    props = ("C10",)
+    label = "proved(for 0 <= n < 2^32, loop unrolled to the operand width)"
+    target = "x690.util:encode_length"
+    functions = (target,)
+    name = "x690.util.encode_length[0 <= n < 2^32]"
+
+    def setup(self, rt, interp):
+        self.rt = rt
+        wire.install(rt)
+
+    def run(self, interp):
+        ctx, rt = interp.ctx, self.rt
+        n = ctx.fresh_int("n")
+        ctx.assume(And(n >= 0, n < 2 ** 32))
+        fn = get_func(rt, interp, self.target)
+        out = interp.call(fn, [n], {})
+        parts = wire.parts_of(out) if wire.is_wire(out) else None
+        octs = []
+        ok = parts is not None
+        if ok:
+            for p in parts:
+                if isinstance(p, WByte):
+                    octs.append(p.v)
+                elif isinstance(p, WLit):
+                    octs.extend(p.b)
+                else:
+                    ok = False
+        ctx.check(oname("C10", self.target, "ensures", "result-is-a-sequence-of-octets"), ok)
+        if not ok:
+            return "?"
+        # X.690 8.1.3: minimal definite form
+        k = len(octs)
+        conds = []
+        short = And(n < 128, k == 1 and interp.eq(octs[0], n))
+        kk = k - 1
+        if kk >= 1:
+            body = [interp.eq(octs[1 + i], SInt((n.e / (256 ** (kk - 1 - i))) % 256)) for i in range(kk)]
+            long_ = And(n >= 128, interp.eq(octs[0], 0x80 + kk), n >= 256 ** (kk - 1), n < 256 ** kk, *body)
+        else:
+            long_ = False
+        ctx.check(oname("C10", self.target, "ensures", "minimal-length-octets"), Or(short, long_), known=n.eq(127), finding="D9")
+        # and in any case a valid definite form for n (what C05 needs)
+        if kk >= 1:
+            valid_long = And(interp.eq(octs[0], 0x80 + kk), *[interp.eq(octs[1 + i], SInt((n.e / (256 ** (kk - 1 - i))) % 256)) for i in range(kk)])
+        else:
+            valid_long = False
+        ctx.check(oname("C10", self.target, "ensures", "valid-definite-length-octets"), Or(short, And(valid_long, n < 256 ** max(kk, 1))))
+        return "returns"
+
+
 def units_rx(tier):
-    return []
+    us = [EncodeLength()]
+    for lv in LEVELS:
+        hashname, priv = LEVELS[lv]
+        for enc in (False, True):
+            us.append(ReceiveV3(lv, enc, 1, "any"))
+        us.append(ReceiveV3(lv, priv, 1, "authentic-minimal"))
+    us.append(ReceiveV3("authPriv-md5", True, 2, "any"))
+    us.append(ReceiveV3("authNoPriv-sha1", False, 0, "any"))
+    return us
